@@ -43,7 +43,12 @@ pub struct LogCase {
     pub left_archives: Vec<u64>,
     pub left_current: Option<u64>,
     pub ops: Vec<LogOp>,
+    /// index into LOG_NAMES (a log's file name is configuration: any file name)
+    #[serde(default)]
+    pub name_sel: u8,
 }
+
+pub const LOG_NAMES: &[&str] = &["ProxyAgent.log", "ProxyAgent.log", "ProxyAgent.Connection.log", "proxyagent", "proxy+agent.log", "Guest Proxy Agent (1).log", "agent[1].log", "$agent^.log", "agent(.log", "what?.log", "a|b.log", "back\\slash.log"];
 
 pub fn log_strategy() -> impl Strategy<Value = LogCase> {
     let wsize = prop_oneof![5 => 1usize..80, 2 => 80usize..600, 1 => 600usize..5000];
@@ -52,23 +57,24 @@ pub fn log_strategy() -> impl Strategy<Value = LogCase> {
         2 => prop::collection::vec(wsize, 1..6).prop_map(LogOp::WriteMany),
         1 => Just(LogOp::Restart),
     ];
-    (prop_oneof![Just(64u64), Just(100), Just(256), Just(1024), Just(4096), 64u64..4096], 1u16..7, prop::collection::vec(0u64..6000, 0..9), prop::option::weighted(0.5, 0u64..6000), prop::collection::vec(op, 1..60))
-        .prop_map(|(size_limit, count, left_archives, left_current, ops)| LogCase { size_limit, count, left_archives, left_current, ops })
+    (prop_oneof![Just(64u64), Just(100), Just(256), Just(1024), Just(4096), 64u64..4096], 1u16..7, prop::collection::vec(0u64..6000, 0..9), prop::option::weighted(0.5, 0u64..6000), prop::collection::vec(op, 1..60), 0u8..12)
+        .prop_map(|(size_limit, count, left_archives, left_current, ops, name_sel)| LogCase { size_limit, count, left_archives, left_current, ops, name_sel })
 }
 
 pub fn eval_log(case: &LogCase, stats: &mut Stats) -> Outcome {
     let dir = fresh_dir("log");
-    let name = "ProxyAgent.log";
+    let name = LOG_NAMES[case.name_sel as usize % LOG_NAMES.len()];
     // an earlier run with the SAME settings never leaves more than `count` files
     // (a run that wrote anything always leaves a current file plus at most count-1 archives)
     let keep = if case.left_current.is_some() { (case.count as usize).saturating_sub(1) } else { 0 };
     let archives: Vec<u64> = case.left_archives.iter().rev().take(keep).rev().cloned().collect();
     for (i, sz) in archives.iter().enumerate() {
-        let f = dir.join(format!("ProxyAgent.log.2020-01-01T00.00.{:02}.000-15778368{:011}.log", i, i));
+        let f = dir.join(format!("{}.2020-01-01T00.00.{:02}.000-15778368{:011}.log", name, i, i));
         std::fs::write(&f, vec![b'x'; *sz as usize]).unwrap();
     }
     if let Some(sz) = case.left_current {
-        std::fs::write(dir.join(name), vec![b'y'; sz as usize]).unwrap();
+        // (the logger gives its current file the extension .log whatever the configured name looks like)
+        std::fs::write(dir.join(std::path::Path::new(name).with_extension("log")), vec![b'y'; sz as usize]).unwrap();
     }
     let started_full = archives.len() + case.left_current.map(|_| 1).unwrap_or(0) >= case.count as usize;
     let mut logger = RollingLogger::create_new(dir.clone(), name.to_string(), case.size_limit, case.count);
@@ -82,7 +88,7 @@ pub fn eval_log(case: &LogCase, stats: &mut Stats) -> Outcome {
         if let Ok(rd) = std::fs::read_dir(dir) {
             for e in rd.flatten() {
                 let n = e.file_name().to_string_lossy().to_string();
-                if n.starts_with("ProxyAgent.log") {
+                if n.starts_with(name) {
                     if let Ok(f) = std::fs::File::open(e.path()) {
                         if let Ok(md) = f.metadata() {
                             v.push((n, md.len(), f));
@@ -116,7 +122,7 @@ pub fn eval_log(case: &LogCase, stats: &mut Stats) -> Outcome {
             }
         };
         largest_write = largest_write.max(wrote);
-        let files: Vec<(String, u64)> = files_in(&dir).into_iter().filter(|(n, _)| n.starts_with("ProxyAgent.log")).collect();
+        let files: Vec<(String, u64)> = files_in(&dir).into_iter().filter(|(n, _)| n.starts_with(name)).collect();
         if reached {
             continued_after_reach = true;
         }
@@ -147,6 +153,9 @@ pub fn eval_log(case: &LogCase, stats: &mut Stats) -> Outcome {
         stats.class("log:starts-at-the-bound");
     }
     stats.class("log:history");
+    if name.chars().any(|c| "+()[]$^?|\\ ".contains(c)) {
+        stats.class("log:file-name-with-characters-special-to-regular-expressions");
+    }
     stats.sample(|| serde_json::json!({"rolling_log": {"size_limit": case.size_limit, "count": case.count, "left_archives": archives, "left_current": case.left_current, "ops": case.ops.len()}}));
     let _ = std::fs::remove_dir_all(&dir);
     Outcome::Pass
@@ -434,4 +443,4 @@ pub fn eval_stop(case: &StopCase, stats: &mut Stats) -> Outcome {
     Outcome::Pass
 }
 
-pub const RULE: &str = "three engines on instance APIs. rolling log: RollingLogger::create_new(dir, name, size limit 64..4096, count 1..6) on a directory left by an earlier run with the same settings (0..count files, possibly at the bound, current file possibly over the limit); ops Write(n), WriteMany([n..]), Restart (new instance on the same directory), 1-59 ops; after EVERY op: files of the log <= count, every file <= limit + largest single write so far, and no file (followed through an open handle across the rename of a roll) that had reached the limit before the op grew during it. rule dumps: AuthorizationRulesForLogging::write_all(dir, max 1..6) on directories holding 0..9 earlier dumps, 1-9 calls with varying max; after every call: exactly one new dump, dumps <= max, survivors are the newest in creation order; in 20% of the histories a dangling symbolic link appears in the folder at some call (listing the folder may then fail): from then on only 'the number of dumps does not grow beyond max(max, what was there)' is asserted. event files: event_logger::start(dir, 1 ms, cap 1..5) over a directory pre-populated with 0..8 event files and, in a quarter of the cases, 1-2 files that are not event files (the .tmp of an interrupted write); ops Burst(n events, 1-39 or 100-899), Consume(k oldest files, as the reader does), Wait(6 flush intervals); after every wait: file count <= max(cap, initial) and a flush that found the directory at the cap created no file. the final flush: each history in a child process (stop() closes a process-wide queue): pre-populated directory, bursts with or without waiting, then 0-7 events queued and stop() at once; after the logger task has ended: file count <= max(cap, initial). non-trivial: history that reaches the bound and continues, or starts at/over it, or stops at the cap with events queued; distinct by hash of the history.";
+pub const RULE: &str = "three engines on instance APIs. rolling log: RollingLogger::create_new(dir, name from 11 file names - the agent's own and names with blanks, + ( ) [ ] $ ^ ? | and a backslash -, size limit 64..4096, count 1..6) on a directory left by an earlier run with the same settings (0..count files, possibly at the bound, current file possibly over the limit); ops Write(n), WriteMany([n..]), Restart (new instance on the same directory), 1-59 ops; after EVERY op: files of the log <= count, every file <= limit + largest single write so far, and no file (followed through an open handle across the rename of a roll) that had reached the limit before the op grew during it. rule dumps: AuthorizationRulesForLogging::write_all(dir, max 1..6) on directories holding 0..9 earlier dumps, 1-9 calls with varying max; after every call: exactly one new dump, dumps <= max, survivors are the newest in creation order; in 20% of the histories a dangling symbolic link appears in the folder at some call (listing the folder may then fail): from then on only 'the number of dumps does not grow beyond max(max, what was there)' is asserted. event files: event_logger::start(dir, 1 ms, cap 1..5) over a directory pre-populated with 0..8 event files and, in a quarter of the cases, 1-2 files that are not event files (the .tmp of an interrupted write); ops Burst(n events, 1-39 or 100-899), Consume(k oldest files, as the reader does), Wait(6 flush intervals); after every wait: file count <= max(cap, initial) and a flush that found the directory at the cap created no file. the final flush: each history in a child process (stop() closes a process-wide queue): pre-populated directory, bursts with or without waiting, then 0-7 events queued and stop() at once; after the logger task has ended: file count <= max(cap, initial). non-trivial: history that reaches the bound and continues, or starts at/over it, or stops at the cap with events queued; distinct by hash of the history.";
